@@ -50,7 +50,8 @@ THEOREMS = {
     "Proofs.GenEq.Appearance": ["VerifModel.GenEq.Appearance." + t for t in
                                 ["tables_interned", "reads_interned", "setters_interned"]],
     "Proofs.C17Kinds": ["VerifModel.C17Kinds." + t for t in
-                        ["C17_kinds_wired", "C17_shown_partial", "C17_droc_log_not_shown", "C17_render_shows"]],
+                        ["C17_kinds_wired", "C17_shown_partial", "C17_droc_log_not_shown", "C17_render_shows",
+                         "C17_wired_effect", "C17_meteo_labels_not_shown"]],
     "Proofs.C17Time": ["VerifModel.C17Time." + t for t in
                        ["C17_time_axis", "C17_time_values", "C17_time_limits", "C17_time_kinds"]],
 }
@@ -67,6 +68,9 @@ TRUSTED_BASE = [
     "_adjust_axes / _legend, legends drawn by the core methods, skip_log, default_axis, is_time_like; both validated each "
     "run by the correspondence itself: the model reply is computed from these tables and must equal what is read from the "
     "live figure",
+    "Model/PlotKinds.lean majorLabelsHidden (hand-written, not regenerated): Meteo._plot_core hides the labels of the major "
+    "x ticks, so _adjust_axis's relabelling / rotation of ax.get_xticklabels() shows nothing there; meteoXrotRepaired / "
+    "METEO_XROT_REPAIRED: merge switch for fix_meteo_xrot.diff; both tied by fig.core / the corpus witnesses on the live figure",
     "Model/FigProps.lean setterField: the meaning of ~50 matplotlib calls (ax.set_xlim sets the x limits, …) — "
     "hand-written, tied by the streams on the live figure",
     "that mpl.plot(**opts) / mpl.bar(color=…, lw=…) draw with these styles, that Data.get_legend() carries the -leg names, "
@@ -85,22 +89,30 @@ ASSUMPTIONS = [
     "options where a legend exists, -sp where the plot kind has a perfect score, -clabel/-clim on -type map, -a/-af/-afs "
     "on the standard plot and the map ('not supported by all metrics') — Spec.Appearance.applicable, proved to agree with "
     "the regenerated wiring tables (C17_kinds_wired)",
-    "on the 27 diagrams of fig.core only the 16 core options (and -sp) are exercised; -type rank / impact / maprank and the "
-    "date axis get every option alone, not the random subsets (except the date axis)",
+    "on the 30 diagrams of fig.core every wired option (wired(plot) = the model's PlotKinds.shown, stream fig.wired) is "
+    "exercised: quick once per diagram in a group of 1-4 options, thorough also alone and in random subsets; the property "
+    "is read from the axes the diagram's _adjust_axes adjusts (gca, or every panel on pithist / against / igncontrib / map — "
+    "C17_kinds_wired.panels); -type rank / impact / maprank get the core options alone, not the random subsets",
+    "recorded deviations (known findings, left out of the canonical line on both sides, still judged by the oracle): "
+    "-xlog / -ylog on droc / droc0, -xrot / -xticklabels on the meteogram",
 ]
 RULE = ("fig.props: random subsets (inclusion probability 0.1-0.5 per option) and values of the 42 appearance options "
         "on -m mae -x leadtime (2 and 5 inputs), -x location, -x time (dates as limits / ticks), -m pithist, "
         "-m reliability -r 5, -m against (3 inputs) and -m mae -type map, written to png/jpg/pdf/svg/eps; fig.single: every "
         "option alone on every such plot kind it applies to, every core option alone on -x time and -type rank / impact / "
-        "maprank, -sp on every kind with a perfect score; fig.core: the 16 core options (-title -xlabel -ylabel -xlim -ylim "
-        "-lc -lw -leg -legfs -xlog -ylog -labfs -tickfs -nogrid -dpi -fs) on all 28 documented diagrams and -hist / -sort, "
-        "on deterministic / probabilistic / ensemble text files: quick one figure per group of 2-3 options and diagram, "
-        "thorough also every option alone and 8 random subsets per diagram; fig.indep: for each multi-option figure one "
+        "maprank, -sp on every kind with a perfect score; fig.core: EVERY wired option (per diagram the documented table "
+        "minus the recorded deviations = PlotKinds.shown of the model, composed from the regenerated wiring tables; 28-38 "
+        "options per diagram: the 16 core options and -titlefs -xticks -yticks -xticklabels -yticklabels -xrot -yrot -legloc "
+        "-ls -ma -ms -gc -gs -gw -sp -aspect -left -right -top -bottom -nomargin) on all 28 documented diagrams and -hist / "
+        "-sort, on deterministic / probabilistic / ensemble text files: quick one figure per group of 1-4 options and "
+        "diagram (every wired option in exactly one group), thorough also every wired option alone (and every recorded "
+        "deviation alone), 8 random subsets of the core options and 4 of all wired options per diagram; fig.wired: for each "
+        "of the 37 plot kinds the list of wired options of the harness against the model's; fig.indep: for each multi-option figure one "
         "option is dropped and every other option's property is compared between the two live figures; an op is "
         "non-trivial if the reply shows at least one property")
 EXHAUSTIVE = {"quick": False, "thorough": False}
-EXHAUSTIVE_NOTE = ("every option alone on every applicable plot kind of fig.single, every core option on every documented "
-                   "diagram is enumerated (thorough: alone); subsets and values are sampled")
+EXHAUSTIVE_NOTE = ("every option alone on every applicable plot kind of fig.single, every wired (option, diagram) pair of the "
+                   "30 diagrams of fig.core is enumerated (quick: in a group, thorough: alone); subsets and values are sampled")
 LEVEL_TEXT = ("Lean theorems on tables regenerated from driver.py/output.py/axis.py each run: every documented appearance "
               "flag is parsed into a local that is assigned to an Output attribute (or Data keyword) that an output "
               "method reads, lands in exactly the documented figure property, no other flag lands there, no read is "
@@ -109,8 +121,9 @@ LEVEL_TEXT = ("Lean theorems on tables regenerated from driver.py/output.py/axis
               "hands the _get_plot_options dictionary to the drawing call exactly where the Spec says per-input styles "
               "apply, has a -legfs-guarded legend exactly where the Spec says a legend exists, a time-like axis exactly "
               "where the x-axis shows dates; in the model each option sets its property to its value (last occurrence "
-              "wins), changes no other option's property, and is shown on every plot kind the Spec lists, except the log "
-              "scales of droc/droc0 (known findings, _partial); on a date axis the x limits / ticks that reach the axis "
+              "wins), changes no other option's property, and is shown on every plot kind the Spec lists (C17_wired_effect: "
+              "for all 37 kinds x 43 options, the canonical line carries the documented value), except the log "
+              "scales of droc/droc0 and the x tick labels / rotation of the meteogram (known findings, _partial); on a date axis the x limits / ticks that reach the axis "
               "are the day numbers of the given dates for every valid date of 1900-2100. Rendering by matplotlib and the "
               "meaning of the ~50 setter calls are tied by reading back the live figure.")
 TECHNIQUE = ("Lean 4 proof over tables regenerated from source by a translator (decide +kernel) plus generic record-update "
@@ -403,6 +416,7 @@ def _axis_raw(ax, names, plot="mae"):
         "xticks": [float(v) for v in ax.get_xticks()], "yticks": [float(v) for v in ax.get_yticks()],
         "xticklabels": [t.get_text() for t in xt], "yticklabels": [t.get_text() for t in yt],
         "xrot": sorted({float(t.get_rotation()) % 360 for t in xt}), "yrot": sorted({float(t.get_rotation()) % 360 for t in yt}),
+        "xrot_minor": sorted({float(t.get_rotation()) % 360 for t in ax.xaxis.get_minorticklabels() if t.get_text()}),
         "tickfs": sorted({float(t.get_fontsize()) for t in xt + yt}),
         "xscale": ax.get_xscale(), "yscale": ax.get_yscale(),
         "aspect": asp if isinstance(asp, str) else float(asp),
@@ -629,6 +643,10 @@ def observed(flag, value, plot, raw):
         return same(vec(a[flag[1:]]) for a in A)
     if flag in ("-xticklabels", "-yticklabels"):
         return same(",".join(esc(t) for t in a[flag[1:]]) for a in A)
+    if flag == "-xrot" and plot == "meteo":
+        # the values shown on the meteogram's x-axis are the hour labels of the minor ticks (and the date labels of
+        # the major ticks that are visible): every visible label of the axis
+        return same(xr(v) for a in A for v in sorted(set(a["xrot"]) | set(a["xrot_minor"])))
     if flag in ("-xrot", "-yrot"):
         return same(xr(v) for a in A for v in a[flag[1:]])
     if flag == "-tickfs":
@@ -775,6 +793,12 @@ SKIP_LOG = {"droc", "droc0"}
 # matched by the `known:` lines — while the model mirrors the code (Model.PlotKinds.shown), so the canonical line
 # leaves the property out on both sides.
 KNOWN_DEVIATIONS = {(p, f) for p in SKIP_LOG for f in ("-xlog", "-ylog")}
+# Meteo._plot_core hides the label of every major (date) tick and shows hour labels on the minor ticks;
+# Output._adjust_axis relabels / rotates the major labels only (known findings meteo-xticklabels, meteo-xrot).
+# METEO_XROT_REPAIRED: merge switch for the proposed patch fix_meteo_xrot.diff (keep equal to
+# Model.PlotKinds.meteoXrotRepaired): True = /repo carries the patch, -xrot is part of the canonical line of meteo.
+METEO_XROT_REPAIRED = True
+KNOWN_DEVIATIONS |= {("meteo", "-xticklabels")} | (set() if METEO_XROT_REPAIRED else {("meteo", "-xrot")})
 
 # (diagram, flag) pairs found to deviate and NOT YET DECIDED (fix or known finding).  A failure of the oracle on such
 # a pair is printed as a PENDING-FINDING line (once) and is not a violation; the proposed `known:` line for each is
@@ -802,7 +826,7 @@ def observable(plot, od, flag, documented=False):
     promises (the oracle's question — known deviations of the code included)"""
     if not applicable(plot, flag):
         return False
-    if not documented and K(plot) in SKIP_LOG and flag in ("-xlog", "-ylog"):
+    if not documented and (K(plot), flag) in KNOWN_DEVIATIONS:
         return False
     if flag in ("-gc", "-gs", "-gw"):
         return "-nogrid" not in od
@@ -834,13 +858,24 @@ def canon(plot, opts, raw):
 
 
 # ------------------------------------------------------------------ impl
+def wired(plot):
+    """the options whose documented property the code shows on a plot kind — Python mirror of the model's
+    `PlotKinds.shown` (Spec.Appearance.applicable minus the recorded deviations, composed from the regenerated wiring
+    tables); stream fig.wired compares the two for every plot kind on every run"""
+    return [f for f in FLAGS if applicable(plot, f) and (K(plot), f) not in KNOWN_DEVIATIONS]
+
+
 def _split(op):
     a = op.split(" ")
+    if a[0] == "figwired":
+        return a[0], a[1], 0, [], None
     return a[0], a[1], int(a[2]), parse_opts(a[3]), (a[4] if len(a) > 4 else None)
 
 
 def impl(op):
     kind, plot, n, opts, flag = _split(op)
+    if kind == "figwired":
+        return ",".join(wired(plot)) or "-"
     raw = observe(plot, opts)
     if kind == "figprops":
         return canon(plot, opts, raw)
@@ -868,6 +903,8 @@ def _log_ticks(od, flag):
 
 def judge(op, impl_out, spec_out):
     kind, plot, n, opts, flag = _split(op)
+    if kind == "figwired":
+        return None
     od = last_wins(opts)
     cl = cmdline(plot, opts)
     if impl_out.startswith("EXC:") or impl_out.startswith("EXIT:"):
@@ -1058,6 +1095,8 @@ def prefetch(ops):
     keys = []
     for op in ops:
         kind, plot, n, opts, flag = _split(op)
+        if kind == "figwired":
+            continue
         keys.append((plot, tuple(opts)))
         if kind == "figindep":
             keys.append((plot, tuple(o for o in opts if o[0] != flag)))
@@ -1151,29 +1190,48 @@ def single_ops(rng, all_plots):
             yield _one(plot, f, rng)
 
 
+# the remaining documented options, drawn together in the quick tier (one figure per group and diagram; no group
+# holds an option together with one that makes it void: -nogrid / -nomargin / -legfs 0 are elsewhere)
+REST_GROUPS = [["-xticks", "-xticklabels", "-xrot"], ["-yticks", "-yticklabels", "-yrot"], ["-ls", "-ma", "-ms"],
+               ["-gc", "-gs", "-gw"], ["-left", "-right", "-top", "-bottom"], ["-titlefs", "-legloc", "-aspect"],
+               ["-nomargin", "-sp"], ["-clabel", "-clim"], ["-a", "-af", "-afs"]]
+assert sorted(f for g in CORE_GROUPS + REST_GROUPS for f in g) == sorted(f for f in FLAGS if f != "-f")
+
+
+def _group_op(plot, fl, rng, fmt="png"):
+    chosen = {}
+    opts = []
+    for f in fl:                                    # tick labels are generated after their ticks
+        chosen[f] = gen_value(f, rng, plot, chosen)
+        opts.append((f, chosen[f]))
+    rng.shuffle(opts)
+    return "figprops %s %d %s" % (plot, PLOTS[plot][0], enc_opts(opts + [("-f", "out.%s" % fmt)]))
+
+
 def core_ops(rng, tier):
-    """fig.core: the core options on every documented diagram.  quick: one figure per group of core options and
-    diagram; thorough: every core option alone as well, and random subsets of the core options"""
+    """fig.core: on every documented diagram every option that is wired for it (wired(plot): the documented table
+    minus the recorded deviations = the model's PlotKinds.shown from the regenerated wiring tables, compared by
+    stream fig.wired).  quick: one figure per group of options and diagram, every wired option in exactly one group;
+    thorough: every wired option alone as well, random subsets of the core options and of all wired options"""
     for plot in CORE_KINDS:
-        app = [f for f in CORE if applicable(plot, f)]
+        w = [f for f in wired(plot) if f != "-f"]
+        # the recorded deviations are run too (alone): the oracle's verdict on them is matched by the known findings
+        dev = [f for f in FLAGS if (K(plot), f) in KNOWN_DEVIATIONS]
+        app = [f for f in CORE if f in w]
         if tier == "thorough":
-            for f in app:
+            for f in w + dev:
                 yield _one(plot, f, rng)
-        for g in CORE_GROUPS:
-            fl = [f for f in g if f in app]
+        for g in CORE_GROUPS + REST_GROUPS:
+            fl = [f for f in g if f in w and not (f.endswith("ticklabels") and f.replace("labels", "s") not in w)]
             if fl:
-                chosen = {}
-                opts = [(f, gen_value(f, rng, plot, chosen)) for f in fl]
-                rng.shuffle(opts)
-                yield "figprops %s %d %s" % (plot, PLOTS[plot][0], enc_opts(opts + [("-f", "out.png")]))
-        for _ in range(8 if tier == "thorough" else 0):
-            fl = [f for f in app if rng.random() < 0.4]
-            if plot in TIME_AXIS and "-xlim" in fl and "-xlog" in fl:
+                yield _group_op(plot, fl, rng)
+        for j in range(12 if tier == "thorough" else 0):
+            pool, p = (app, 0.4) if j < 8 else (w, 0.25)
+            fl = [f for f in pool if rng.random() < p]
+            if plot in TIME_AXIS and ("-xlim" in fl or "-xticks" in fl) and "-xlog" in fl:
                 fl.remove("-xlog")
-            chosen = {}
-            opts = [(f, gen_value(f, rng, plot, chosen)) for f in fl]
-            rng.shuffle(opts)
-            yield "figprops %s %d %s" % (plot, PLOTS[plot][0], enc_opts(opts + [("-f", "out.%s" % _fmt(rng))]))
+            fl = [f for f in fl if not (f.endswith("ticklabels") and f.replace("labels", "s") not in fl)]
+            yield _group_op(plot, fl, rng, _fmt(rng))
 
 
 def _indep_op(rng, plot, cfg):
@@ -1189,6 +1247,7 @@ def gen_ops(tier, rng):
     out += [("fig.pair", op) for op in pair_ops(rng)]
     core = list(core_ops(rng, tier))
     out += [("fig.core", op) for op in core]
+    out += [("fig.wired", "figwired %s" % k) for k in PLOTS if k != "mae5"]
     nrand = 150 if tier == "quick" else 1500
     indep = []
     for _ in range(nrand):
@@ -1216,6 +1275,8 @@ def search_ops(rng):
 
 def shrink(op):
     kind, plot, n, opts, flag = _split(op)
+    if kind == "figwired":
+        return
     core = [o for o in opts if o[0] != "-f"]
     fo = [o for o in opts if o[0] == "-f"]
     tail = (" " + flag) if flag else ""
@@ -1245,6 +1306,8 @@ def extra_evidence(rows):
         try:
             kind, plot, n, opts, flag = _split(r["op"])
         except Exception:
+            continue
+        if kind == "figwired":
             continue
         plots[plot] = plots.get(plot, 0) + 1
         ext = dict(opts).get("-f", "out.png").rsplit(".", 1)[-1]
